@@ -98,10 +98,19 @@ fn templates() -> Vec<Template> {
 }
 
 const HOSTILE_SMALL: [&str; 10] = ["0", "-1", "", "NaN", "1e999", "2147483648", "131073", "9001", "x", "-"];
+const HOSTILE_TINY: [&str; 4] = ["", "NaN", "2147483648", "-1"];
+
+fn menu_for(k: usize) -> &'static [&'static str] {
+    match k {
+        0 | 1 => &HOSTILE,
+        2 => &HOSTILE_SMALL,
+        _ => &HOSTILE_TINY,
+    }
+}
 
 struct DevPlan {
-    /// (template idx, field subset, menus per chosen field)
-    slots: Vec<(usize, Vec<usize>, bool)>,
+    /// (template idx, field subset)
+    slots: Vec<(usize, Vec<usize>)>,
     cumulative: Vec<u64>,
     ctxs: Vec<(u8, i32)>,
 }
@@ -117,10 +126,8 @@ fn dev_plan(tpls: &[Template], max_dev: usize, ctxs: Vec<(u8, i32)>) -> DevPlan 
                 continue;
             }
             let subset: Vec<usize> = (0..n).filter(|i| mask & (1 << i) != 0).collect();
-            let small = k >= 2;
-            let menu = if small { HOSTILE_SMALL.len() } else { HOSTILE.len() } as u64;
-            let count = menu.pow(k as u32);
-            slots.push((ti, subset, small));
+            let count = (menu_for(k).len() as u64).pow(k as u32);
+            slots.push((ti, subset));
             cumulative.push(cumulative.last().unwrap() + count);
         }
     }
@@ -140,12 +147,12 @@ fn fam_deviations(max_dev: usize, ctxs: Vec<(u8, i32)>) -> Family {
             let (mode, version) = plan.ctxs[(idx % nctx) as usize];
             let li = idx / nctx;
             let si = plan.cumulative.partition_point(|c| *c <= li) - 1;
-            let (ti, subset, small) = &plan.slots[si];
+            let (ti, subset) = &plan.slots[si];
             let t = &tpls[*ti];
             let mut k = li - plan.cumulative[si];
             let mut fields: Vec<&str> = t.fields.iter().map(String::as_str).collect();
+            let menu = menu_for(subset.len());
             for &f in subset {
-                let menu: &[&str] = if *small { &HOSTILE_SMALL } else { &HOSTILE };
                 fields[f] = menu[(k % menu.len() as u64) as usize];
                 k /= menu.len() as u64;
             }
@@ -181,7 +188,7 @@ fn pool(small_only: bool) -> Vec<(String, Vec<u8>)> {
 
 fn fam_prefixes(tier: Tier) -> Family {
     let files = pool(false);
-    let dense = tier.pick(4096usize, 600_000usize);
+    let dense = tier.pick(4096usize, 80_000usize);
     let mut cases: Vec<(u32, u32)> = Vec::new();
     for (fi, (_, b)) in files.iter().enumerate() {
         if b.len() <= dense {
